@@ -417,18 +417,33 @@ theorem stringTry_none (g : GenFull) (s : String) (h : ∀ ty, g.base.parse ⟨t
   obtain ⟨t, _, rfl⟩ := List.mem_map.mp hx
   exact h t.ty
 
-theorem numericTry_none (g : GenFull) (signed : Bool) (x : Int) (h : ∀ ty, g.base.parse ⟨ty, .int x⟩ = none) :
-    numericTry {} g signed x = none := by
+/-- a numeric fallback block fails when the number is no constant of any trait THE BLOCK RANGES
+OVER (the parsable traits of that kind whose type has no unmarshaler of its own for the codec) -/
+theorem numericTry_none_of_list (g : GenFull) (c : Codec) (signed : Bool) (x : Int)
+    (h : ∀ t ∈ g.numericTraits c signed, g.base.parse ⟨t.ty, .int x⟩ = none) :
+    numericTry {} g c signed x = none := by
   unfold numericTry
   apply firstSome_none
   intro y hy
-  obtain ⟨t, _, rfl⟩ := List.mem_map.mp hy
+  obtain ⟨t, ht, rfl⟩ := List.mem_map.mp hy
   simp only []
   generalize wrapTo signed _ x = w
   by_cases hc : w = x
-  · subst hc; simp [h t.ty]
+  · subst hc; simp [h t ht]
   · have : (({} : Quirks).noRangeGuard || w == x) = false := by simp [hc]
     rw [this]; rfl
+
+theorem numericTry_none (g : GenFull) (c : Codec) (signed : Bool) (x : Int) (h : ∀ ty, g.base.parse ⟨ty, .int x⟩ = none) :
+    numericTry {} g c signed x = none :=
+  numericTry_none_of_list g c signed x (fun t _ => h t.ty)
+
+/-- membership in the list a numeric block ranges over -/
+theorem mem_numericTraits {g : GenFull} {c : Codec} {signed : Bool} {t : TraitDesc} :
+    t ∈ g.numericTraits c signed ↔
+      t ∈ g.traits ∧ t.parsable = true ∧ t.fam.isNumeric signed = true ∧ t.fam.implements c = false := by
+  unfold GenFull.numericTraits
+  rw [List.mem_filter]
+  simp [Bool.and_eq_true, and_assoc]
 
 
 end Genum
